@@ -1,7 +1,8 @@
 (* Extract_undo.v -- extraction of the edit-log model (lbuf.c) and the undo-stack spec to OCaml
    (ExtrOcamlBasic only).  Extended for C02 by DirtyDefs. *)
 From Coq Require Import List NArith ZArith Extraction ExtrOcamlBasic.
-From NV Require Import UndoDefs.
+From NV Require Import UndoDefs DirtyDefs.
 Definition all_types : nat * N * Z := (0%nat, 0%N, 0%Z).
 Extraction "undo_model.ml" all_types lbuf_make lbuf_loaded lbuf_edit lbuf_undo lbuf_redo lbuf_modified
-  lbuf_saved lbuf_unsaved modified_flag lines_of ln run_op spec_op ustack_init cur.
+  lbuf_saved lbuf_unsaved modified_flag lines_of ln run_op spec_op ustack_init cur
+  run_dop run_dops ebuf_open dirty_flag ec_quit guard_current disk lb.
